@@ -2,6 +2,7 @@ import SR.Drv.Loop
 import SR.Checker.Sched
 import SR.Checker.Spec
 import SR.Checker.Sim
+import SR.Checker.Verdict
 /-! Driver commands of the checker group (C01, C02, C03, C11, C12, C13): `chk` runs the machine
 scheduler; `o-chk <prop> ...` evaluates the declarative oracle of one property on implementation outputs. -/
 namespace SR.Drv.Chk
@@ -57,6 +58,9 @@ def natsStr (l : List Nat) : String := toString (SExp.ofNats l)
 def fuelFor (g : Graph) (props : List GProp) : Nat :=
   20 + (g.n + 2) * (8 + props.length * 2 + (g.adj.map List.length).foldl (· + ·) 0 + g.init.length) * 2
 
+def showVerdict (P : Params Nat Nat Nat) (s : St Nat Nat) : String :=
+  s!" (done {Drv.bstr (isDone P s)}) (assert {if assertPropertiesOk P s then "ok" else "panic"})"
+
 def showSt (s : St Nat Nat) : String :=
   let visits := "(" ++ " ".intercalate (s.visits.reverse.map natsStr) ++ ")"
   let disc := s.disc.mergeSort (fun a b => a.1 ≤ b.1)
@@ -73,8 +77,8 @@ structure Obs where
 
 def Obs.ofSExp? : SExp → Option (Option Obs)
   | .list [.atom "panic"] => some none
-  | .list [.list [.atom "visits", vs], .list [.atom "uniq", u], .list [.atom "count", c], .list [.atom "depth", d],
-           .list [.atom "disc", ds]] => do
+  | .list (.list [.atom "visits", vs] :: .list [.atom "uniq", u] :: .list [.atom "count", c] :: .list [.atom "depth", d] ::
+           .list [.atom "disc", ds] :: _) => do
     let vs ← vs.listOf? SExp.nats?
     let u ← u.nat?; let c ← c.nat?; let d ← d.nat?
     let ds ← ds.listOf? (SExp.pairOf? SExp.nat? SExp.nats?)
@@ -204,7 +208,7 @@ def handle : Drv.Handler
     let c : Case := { g, props := ps, cfg, finish := fin }
     let d := if strat == "dfs" then Discipline.dfs else if strat == "bfs" then Discipline.bfs else Discipline.ondemand
     let s := runSingle c.params d (fuelFor g ps)
-    pure (showSt s)
+    pure (showSt s ++ showVerdict c.params s)
   | "sim", [g, ps, cfg, ans] => do
     let g ← Graph.ofSExp? g
     let ps ← ps.listOf? GProp.ofSExp?
@@ -224,7 +228,8 @@ def handle : Drv.Handler
     let rep ← rep.nats?
     let c : Case := { g, props := ps, cfg, finish := fin }
     let P : Params Nat Nat Nat := { c.params with key := fun s => rep.getD s s }
-    pure (showSt (runSingle P .dfs (fuelFor g ps)))
+    let st := runSingle P .dfs (fuelFor g ps)
+    pure (showSt st ++ showVerdict P st)
   | "o-chk-sym", [g, ps, cfg, rep, obs] => do
     let g ← Graph.ofSExp? g
     let ps ← ps.listOf? GProp.ofSExp?
